@@ -1,5 +1,6 @@
 import OnetVerif.Model.C04
 import OnetVerif.Props.C05
+import OnetVerif.Props.C01
 import OnetVerif.Shapes
 /-! Property C04 — aggregated message types are delivered as one complete batch per round.
 Only property theorems, their non-vacuity examples and the lemmas they need. -/
@@ -1596,6 +1597,53 @@ theorem c04_comp_unserialised_loses_batch :
     let serial := aggregate cfg2 (aggregate cfg2 q0 (mu 0)).1 (mu 1)
     let racy := aggregate cfg2 q0 (mu 1)      -- computed from the queues as they were BEFORE `mu 0` was stored
     serial.2 = some [mu 0, mu 1] ∧ racy.2 = none ∧ racy.1 1 = [mu 1] := by decide
+
+end Comp
+namespace Comp
+
+/-! ### … and with the overlay's hand-over (property C01's model of the `transmitMux` region, imported) -/
+
+/-- **routing by token, composed**: take ANY schedule of the overlay's region — arrivals for any tokens from any number
+of connections, their threads taking `transmitMux` in any order, constructors of any duration (`C01.Inst`) — and feed its
+hand-over log, in hand-over order, to the instance table (`sysRun`: the instance a message is handed to is the one its
+token names, C01's `c01_handed_to_its_instance`).  Then for every token (1) what its instance queues and dispatches is
+`C04.run` over the messages handed to IT alone, in that order — whatever was handed to other instances in between —, and
+(2) once every arrival thread is through and no instance has finished, those messages are exactly the arrivals for that
+token, each handed over exactly once (`c01_region_exactly_once`, instantiated).  With `c04_comp_rounds` behind it (the
+reader), C04's batch theorems hold from the moment a message leaves the connection's goroutine. -/
+theorem c04_comp_routing (s : Sys) (μ : Nat → Msg) (as : List C01.Inst.Act) (tok : Nat)
+    (hq : ∀ t ∈ (C01.Inst.run {} as).thr, t.pc = .fin) (hd : (C01.Inst.run {} as).doneToks = []) :
+    let handed := (C01.Inst.run {} as).handed
+    let evs : List (Nat × Msg) := handed.map fun p => (p.1, μ p.2)
+    (sysRun s evs).1.q tok = (C04.run (s.cfg tok) (s.q tok) (evOf tok evs)).1 ∧
+    outOf tok (sysRun s evs).2 = (C04.run (s.cfg tok) (s.q tok) (evOf tok evs)).2 ∧
+    (∀ p ∈ handed, p.1 ∈ (C01.Inst.run {} as).inst ∧ p.1 ∈ (C01.Inst.run {} as).created) ∧
+    ∀ m, handed.count (tok, m) = (C01.Inst.run {} as).arrived.count (tok, m) := by
+  intro handed evs
+  have hi := c04_instances_independent s tok evs
+  refine ⟨hi.2.1, hi.2.2, ?_, ?_⟩
+  · intro p hp
+    have h := C01.Inst.c01_handed_to_its_instance as p hp
+    rcases h.1 with h1 | h1
+    · exact ⟨h1, h.2⟩
+    · rw [hd] at h1; simp at h1
+  · intro m
+    have h := C01.Inst.c01_region_exactly_once as hq tok m
+    have hdrop : (C01.Inst.run {} as).dropped.count (tok, m) = 0 := by
+      rw [List.count_eq_zero]
+      intro hm
+      have := C01.Inst.c01_dropped_only_finished as (tok, m) hm
+      rw [hd] at this; simp at this
+    show (C01.Inst.run {} as).handed.count (tok, m) = _
+    omega
+
+/-- non-vacuity: two tokens, three arrivals, the constructor of token 7 still running when the second message for it
+arrives -/
+example :
+    let as : List C01.Inst.Act := [.arrive 7 1, .arrive 9 2, .thread 0, .arrive 7 3, .thread 2, .thread 1, .thread 0, .thread 1, .thread 2, .thread 1, .thread 2]
+    (C01.Inst.run {} as).handed = [(7, 1), (9, 2), (7, 3)] ∧ (C01.Inst.run {} as).doneToks = [] ∧
+    ∀ t ∈ (C01.Inst.run {} as).thr, t.pc = .fin := by
+  decide
 
 end Comp
 end C04
